@@ -12,7 +12,7 @@ import datetime
 import json
 import os
 
-from harness import core, scen, world as W
+from harness import core, scen, vcommon, world as W
 
 RULE = ("honest random chains (1-3 steps, 0-2 inspections, both formats) with one mutation from: verifier key "
         "set (empty / owners / subset / superset with non-signer / stranger), expiry at -10y, -1s, 0, +1us, +1s, "
@@ -78,6 +78,8 @@ def gen_case(rng, root, family, tier):
         desc.update(offset=label, tz=tz)
     scn = scen.build(ch, root, rng)
     scn.now, scn.tz = now, tz
+    # substitution parameters are an argument of every verification (absent / empty / unused names): the gate is the same
+    scn.params = vcommon.pick_params(rng, desc)
     base_content = copy.deepcopy(scn.layout)
     edited = None
     pool = W.pool()
